@@ -14,7 +14,7 @@ RULE = ('histories = every sequence of <=L tests in one layer (with per-test '
         'two or more result events, passing subtests, a skip inside a subtest, tests that redirect, replace or save/restore sys.stdout themselves) x write pattern (nothing | stdout with / '
         'without newline | stderr | bytes through .buffer | both streams | '
         'write in setUp | before and after the subtests | inside a passing subtest), every write carrying a token unique to (test, '
-        'stream); run with --buffer on and off; tokens are searched in the '
+        'stream); run with --buffer on and off, with the layer in a -j2 / resumed subprocess, and with --buffer -D; tokens are searched in the '
         'captured runner stdout/stderr and stream identity is sampled at '
         'every trace event; non-trivial = >=1 write and >=1 non-pass outcome')
 ASSUMPTIONS = [
@@ -39,6 +39,8 @@ SHOWN = {'fail', 'error', 'uxs', 'teardown_err', 'body+teardown',
          'redir_sub_fail', 'swap_fail'}
 # tests that touch sys.stdout themselves: only meaningful with --buffer (without
 # it the runner never looks at the streams, so it cannot be blamed for them)
+# (under -D the test runs through debug(): an expected failure raises there)
+QUIET = {'pass', 'skip_body', 'skip_setup', 'skip_dec', 'sub:0,0,2', 'swap_pass'}
 TOUCHES = {'leave_replaced'}
 # tests that put back a stream object they saved earlier (contextlib.
 # redirect_stdout does): what they write after that goes wherever they pointed
@@ -58,15 +60,30 @@ def cases(tier, seed):
             yield [list(map(list, seq)), True, 'plain']
             if ln <= 2 and not any(k in TOUCHES for k, w in seq):
                 yield [list(map(list, seq)), False, 'plain']
+            if ln == 1 or (ln == 2 and seq[0][1] in ('oe', 'e')):
+                # the layer runs in a subprocess (-j2 / resumed): the child's
+                # sys.stderr is aliased to its stdout
+                if not any(k in TOUCHES or k in REINSTALLS for k, w in seq):
+                    yield [list(map(list, seq)), True, 'j2']
+                    yield [list(map(list, seq)), True, 'resumed']
+            if all(k in QUIET for k, w in seq) and ln <= 2:
+                # --buffer together with -D: nothing fails, so pdb never starts
+                yield [list(map(list, seq)), True, 'D']
             if ln == 1 or (ln == 2 and (tier == 'thorough' or seq[0][1] in ('oe', 'none'))):
                 # other output formatters sit between the result and the text
                 yield [list(map(list, seq)), True, 'xml']
                 yield [list(map(list, seq)), True, 'color']
 
 
-def build_spec(seq):
+def build_spec(seq, fmt='plain'):
     layers = [{'n': 'A', 'b': [], 'k': 'c', 'h': list(worlds.HOOKS_ALL)}]
     tests = []
+    if fmt == 'resumed':
+        # a first layer that cannot be torn down: layer A is resumed in a child
+        layers.insert(0, {'n': '0first', 'b': [], 'k': 'i', 'h': list(worlds.HOOKS_SD),
+                          'f': {'tearDown': 'NIE'}})
+        tests.append({'n': 'z', 'l': '0first', 's': 'pass'})
+    ntests0 = len(tests)
     for i, (k, w) in enumerate(seq):
         t = {'n': 'q%d' % i, 'l': 'A', 's': k}
         o, e = 'TOK%do' % i, 'TOK%de' % i
@@ -92,14 +109,48 @@ def build_spec(seq):
     return {'layers': layers, 'tests': tests}
 
 
+def child_mode_viol(seq, spec, res, fmt):
+    """The layer ran in a subprocess: every token of a failing test that was
+    written appears exactly once in what the parent shows, quiet ones never."""
+    out = []
+    text = res.out + res.err
+    reached = {}
+    for ev in res.trace:
+        if ev[1] == 't' and ev[3] in ('setUp', 'body', 'w2', 'wsub'):
+            reached.setdefault(ev[2], set()).add(ev[3])
+    if not res.children:
+        out.append(('harness_no_children', '', {}))
+    for i, (k, w) in enumerate(seq):
+        tid = 'q%d' % i
+        t = [x for x in spec['tests'] if x['n'] == tid][0]
+        for key, phase in (('w', 'body'), ('ws', 'setUp'), ('w2', 'w2'), ('wsub', 'wsub')):
+            for stream, txt, via in t.get(key) or []:
+                tok = txt.strip().encode()
+                n = text.count(tok)
+                did = phase in reached.get(tid, ())
+                if k in SHOWN and did:
+                    if n != 1:
+                        out.append(('failing_output_not_shown_once', 'token %s (%s stream) of %s test %s shown %d times by the parent of a %s run' % (tok, stream, k, tid, n, fmt), {'script': k, 'w': w, 'stream': stream}))
+                elif n:
+                    out.append(('quiet_output_leaked', 'token %s of %s test %s appears in the output of a %s run' % (tok, k, tid, fmt), {'script': k, 'w': w}))
+    return out
+
+
 def setup_worker():
     runrt._mods()
 
 
 def run_case(case):
     seq, buf, fmt = case
-    spec = build_spec(seq)
+    spec = build_spec(seq, fmt)
     argv = ['--buffer'] if buf else []
+    stdin = None
+    if fmt == 'j2':
+        argv += ['-j2']
+    elif fmt == 'D':
+        argv += ['-D']
+        import io
+        stdin = io.StringIO('c\n' * 10)
     xmldir = None
     if fmt == 'xml':
         xmldir = '/dev/shm/vt-c13-%d' % os.getpid()
@@ -107,7 +158,7 @@ def run_case(case):
     elif fmt == 'color':
         argv += ['-c']
     try:
-        res = runrt.run_world(spec, argv)
+        res = runrt.run_world(spec, argv, stdin=stdin)
     finally:
         if xmldir:
             shutil.rmtree(xmldir, ignore_errors=True)
@@ -118,6 +169,12 @@ def run_case(case):
                      'detail': str(detail) + '\nseq=%s' % (seq,)})
     if res.escaped:
         V('run_aborted', res.escaped_tb, exc=res.escaped)
+    if fmt in ('j2', 'resumed'):
+        for clause, detail, sg in child_mode_viol(seq, spec, res, fmt):
+            V(clause, detail, **sg)
+        if res.streams_after != (True, True) and not res.escaped:
+            V('streams_not_restored_after_run', res.streams_after)
+        return {'nontrivial': True, 'violations': viol, 'outcome': (buf, fmt, len(seq), bool(res.escaped))}
     # windows and phases per test from the trace
     win = {}
     reached = {}
